@@ -24,8 +24,8 @@
 struct vp_in {
 	octet arena[ASZ];
 };
-static octet A[ASZ];
-static octet R[RSZ];
+static octet A[ASZ] __attribute__((aligned(16)));
+static octet R[RSZ] __attribute__((aligned(16)));
 /* concrete-length copies; byte loops with constant bounds constant-propagate in symex */
 static void c11_cp(octet* d, const octet* s, size_t n) { size_t i; for (i = 0; i < n; ++i) d[i] = s[i]; }
 #define C11_LOAD() c11_cp(A, pin->arena, ASZ)
